@@ -38,4 +38,15 @@ TypeOK == prev \in 0..MaxLimit /\ retry \in 0..6 /\ left \in (0 - 1)..MaxLimit /
 LevelBound == level <= MaxLimit + 6
 \* the loop gives up only after six levels without progress, or when the budget is spent
 GivesUpLate == (pc # "loop" /\ left > 0) => retry = 6
+\* the inductive invariant that Apalache discharges for an UNBOUNDED budget (RouterCacheLoopInd.tla): here an invariant of the bounded instance
+IndInv ==
+  /\ pc \in {"loop", "routes", "done"}
+  /\ 0 <= prev /\ prev <= MaxLimit
+  /\ 0 <= retry /\ retry <= 6
+  /\ 0 <= level
+  /\ 0 <= routes /\ routes <= MaxRoutes
+  /\ left <= prev
+  /\ level + prev <= MaxLimit + retry
+  /\ (pc = "loop" => retry <= 5 /\ left = 0)
+  /\ GivesUpLate
 =============================================================================
